@@ -1030,3 +1030,28 @@ func Run(c *Case) (st *Stats, err error) {
 var _ = errors.New
 var _ = storage.TypeAll
 var _ gen.Hex
+
+// ReleaseHandles finishes all iterators (with their end-of-life checks),
+// releases snapshots and discards an open transaction; the DB stays open.
+func (e *Env) ReleaseHandles() error {
+	for len(e.iters) > 0 {
+		h := e.iters[0]
+		e.iters = e.iters[1:]
+		if err := e.finishIter(h); err != nil {
+			return err
+		}
+	}
+	for _, h := range e.snaps {
+		if err := e.scanHandle(h); err != nil {
+			return err
+		}
+		h.s.Release()
+	}
+	e.snaps = nil
+	if e.Tr != nil {
+		e.Tr.Discard()
+		e.Tr, e.TrM = nil, nil
+		e.St.TrDiscards++
+	}
+	return nil
+}
